@@ -6,7 +6,8 @@ CONSTANTS
   BaseSeq <- BasesAll
   WrapSeq <- WrapsAll
   RenSeq <- RensMC
-  DocSet <- DocBoth
+  DocSet <- DocAll
+  IntFull = TRUE
   Family = "all"
   MaxFields = 1
   MaxDepth = 3
